@@ -133,15 +133,23 @@ PROPS["C01"] = dict(
         "(EpochsContext invariant, C08); epochs/indices stay inside uint64; the withdrawal cursor is inside a non-empty registry",
     ],
     manifest=dict(
-        level_text="Lean theorems M = S, for all inputs without size bound, for the places where zrnt's block-processing algorithm differs in shape "
-                   "from the spec (ZigZagJoin intersection in attester slashings, single-pass exit-queue scan of InitiateValidatorExit, the "
-                   "GetExpectedWithdrawals sweep with early reads and breaks, IsSlashableAttestationData), each tied to the exported Go function by a "
-                   "direct differential run; plus a differential run of the real PostSlotTransition (signature validation on) against the executable "
-                   "Lean specification S for every block of generated chains that reach all five forks and contain every operation kind",
+        level_text="Lean theorems, for all inputs without size bound: every block operation of the hand model M of zrnt's code equals the "
+                   "executable specification S on every fork (header, RANDAO, eth1 vote, proposer and attester slashings incl. the ZigZagJoin "
+                   "intersection and slash_validator, attestations phase0/altair/deneb, deposits, exits incl. the single-pass exit-queue scan, "
+                   "BLS changes, execution payload, withdrawals sweep, sync aggregate); the block composes: processBlock_eq / "
+                   "postSlotTransition_eq / stateTransition_eq (M simulates S and the budgeted invariant Inv k is re-established after an "
+                   "accepted block) for any fork under the per-operation premise OpSteps; for phase0 that premise is discharged for arbitrary "
+                   "blocks incl. deposits (processBlock_phase0_eq, M_block_refines_S_phase0); each modelled function is tied to the exported Go "
+                   "function by direct differential runs, and the real PostSlotTransition (signature validation on) is run against S for every "
+                   "block of generated chains that reach all five forks, contain every operation kind, blocks with exactly MAX_x operations and "
+                   "configurations with pairwise different per-fork constants",
         level_note="trusted: Lean kernel, the specification transcription S, flat state/block exchange formats, signature oracle (real BLS, own "
-                   "domain/committee code), chain generator; roots of block parts and the post-state root are inputs from the Go library; the "
-                   "end-to-end theorem M_block_refines_S is stated in full and proved in part (…_partial), the remaining operations rest on "
-                   "the correspondence Go = S along generated chains only",
+                   "domain/committee code), chain generator; roots of block parts and the post-state root are inputs from the Go library; the tie "
+                   "M = Go is by correspondence (differential runs), not by proof; altair..deneb whole blocks are proved under the OpSteps "
+                   "premise only (M_block_refines_S_partial): there the per-operation theorems are proved but their side conditions along a "
+                   "block are not yet discharged, so whole-block equality on those forks rests on the correspondence along generated chains; "
+                   "the phase0 theorems assume a pre-state inside the budgeted invariant P0DInv (registry/balance/exit-queue headroom, context "
+                   "= spec committees) and deposit amounts within the balance unit",
         technique="Lean 4 proof (refinement lemmas) + Go/Lean differential correspondence with a BLS signature oracle",
         design_ref="DESIGN.md 5/C01", engine="lean"),
 )
